@@ -416,8 +416,8 @@ def main(argv):
 
     if argv[2] == "--replay":
         path = argv[3]
-        hdr = case_header(path)
-        bname = hdr.get("harness", spec["default_build"])
+        hdr = case_header(path) if not path.endswith(".bin") else {}
+        bname = spec.get("bin_build", spec["default_build"]) if path.endswith(".bin") else hdr.get("harness", spec["default_build"])
         b = spec["builds"][bname]
         _, ok, msg = build_one(b, th)
         if not ok:
@@ -426,7 +426,11 @@ def main(argv):
         if path.endswith(".bin"):
             p = sh([b.path, path], env=san_env())
             print(p.stdout[-4000:])
-            return 0 if p.returncode == 0 else 1
+            if p.returncode != 0:
+                print("VIOLATION property=%s replay=%s" % (pid, path))
+                return 1
+            print("replay: pass")
+            return 0
         st, cls, outp = replay_case(b, path, known)
         print(outp[-4000:])
         print("replay:", st, cls)
